@@ -79,6 +79,9 @@ def check(ctx):
     ctx.require(R1, bool(cfe.calls_to("acmed::storage::check_files")), "%s:%s" % (cfe.file, cfe.line), "… through check_files", ["certificate_files_exists", "check_files"])
     from .storage_common import check_files_rules
     check_files_rules(ctx, R1)
+    # the compared texts are in the same form: configured identifiers are normalised at load (shared with C01.R4)
+    from .c01 import normalisation_rule
+    normalisation_rule(ctx, R1)
     # direction of the difference
     hb = prog.must_body(CERT + "::has_missing_identifiers")
     diffs = hb.calls_to("std::collections::hash::set::HashSet::difference")
